@@ -652,9 +652,20 @@ func c05(r *core.Run) {
 					unit = append(unit, core.Calls(f2)...)
 				}
 			}
+			savedRoot := m.root
+			m.root = cl
 			for _, c := range unit {
 				cal := c.Common().StaticCallee()
-				if cal == nil || !m.may[cal] || !m.takesT(c) {
+				isReply := cal != nil && m.may[cal] && m.takesT(c)
+				if cal == nil {
+					// the reply method handed to a shared mapping helper as a function value
+					for _, bc := range m.boundCallees(c.Common().Value) {
+						if m.may[bc] {
+							isReply = true
+						}
+					}
+				}
+				if !isReply {
 					continue
 				}
 				// the *Error argument of the reply call
@@ -696,6 +707,7 @@ func c05(r *core.Run) {
 				}
 				r.Check(good, "E1", core.FuncName(cl), "recover-arm-error:"+desc, p.InstrPos(c), "panic value mapped by the documented rule", "a recovered panic is answered with "+desc+": neither the *Error itself nor an internal error")
 			}
+			m.root = savedRoot
 		}
 	}
 	// InternalError / ToError
